@@ -219,7 +219,7 @@ func runC08(c *report.Ctx) {
 	delWS := fn(c, pkgTxmgr, "SyncStore", "DeleteWalletStatus")
 	delKS := fn(c, pkgKeystore, "KeystoreManager", "DeleteKeystore")
 	if rrt != nil && delWS != nil && delKS != nil {
-		for _, af := range ar.AnonFuncs {
+		for _, af := range closuresOf(p, ar) {
 			if len(calls(af, rrt)) == 0 {
 				continue
 			}
@@ -238,7 +238,20 @@ func runC08(c *report.Ctx) {
 						if a.Op != token.ILLEGAL || !a.Truth {
 							return false
 						}
-						return strings.Contains(p.Desc(a.X), "RemoveRelevantTx") || strings.HasPrefix(p.Desc(a.X), "*free:*bool") || strings.Contains(p.Desc(a.X), "free:")
+						if strings.Contains(p.Desc(a.X), "RemoveRelevantTx") || strings.HasPrefix(p.Desc(a.X), "*free:*bool") || strings.Contains(p.Desc(a.X), "free:") {
+							return true
+						}
+						// the verdict kept in a field of the step's own state object: stored from RemoveRelevantTx earlier in this body
+						if ld, isLd := a.X.(*ssa.UnOp); isLd && ld.Op == token.MUL {
+							if fa, isFA := ld.X.(*ssa.FieldAddr); isFA {
+								for _, st := range fieldStores(af, an.NamedOf(fa.X.Type()), an.FName(derefStructT(fa.X.Type()), fa.Field)) {
+									if strings.Contains(p.Desc(st.(*ssa.Store).Val), "RemoveRelevantTx") && instrDominates(st, ld) {
+										return true
+									}
+								}
+							}
+						}
+						return false
 					}) {
 						c.OK(key, "guarded by the finish verdict of this round", posOf(c, s))
 					} else {
